@@ -553,7 +553,14 @@ func runDoOnce(c Case, try int) (res obs.Result, raced bool) {
 	res.Kind = "do"
 	version := gen.Pick(r, []string{"7.2.4", "7.2.4", "8.0.0"})
 	nprim := r.Range(2, 4)
-	l := newLive(r, version, nprim, r.Chance(1, 3))
+	spare := r.Chance(1, 3)
+	// scale-out scenario: the first reply is an ASK / MOVED to a node that joined after the client learnt the
+	// topology (CLUSTER SLOTS does not list a node without slots)
+	scaleOut := r.Chance(1, 6)
+	if scaleOut {
+		version, spare = "7.2.4", true
+	}
+	l := newLive(r, version, nprim, spare)
 	slot := r.Intn(16384)
 	key := "{" + fc.TagFor(slot) + "}k"
 	write := r.Chance(1, 2)
@@ -563,6 +570,17 @@ func runDoOnce(c Case, try int) (res obs.Result, raced bool) {
 	}
 	nsteps := gen.Pick(r, []int{0, 1, 1, 2, 2, 3, 4, 6})
 	steps := genSteps(r, l, nsteps, true)
+	if scaleOut {
+		steps = append([]fc.Step{{Kind: gen.Pick(r, []string{"ASK", "ASK", "MOVED"}), Addr: l.prims[nprim]}}, steps...)
+	}
+	if spareNode := len(l.prims) > nprim; spareNode {
+		// ASK / MOVED to a node the client has never heard of (not in the topology answer, not in InitAddress)
+		for i := range steps {
+			if (steps[i].Kind == "ASK" || steps[i].Kind == "MOVED") && r.Chance(1, 2) {
+				steps[i].Addr = l.prims[nprim]
+			}
+		}
+	}
 	migr := r.Intn(4) // 0 none, 1 slot moved after the client learnt the topology, 2 slot migrating (ASK), 3 both in sequence
 	maxRedir := gen.Pick(r, []int{0, 0, 1, 2, 3})
 	disableRetry := r.Chance(1, 4)
@@ -606,6 +624,20 @@ func runDoOnce(c Case, try int) (res obs.Result, raced bool) {
 	if len(l.cl.Topos()) != ntopo {
 		return res, true
 	}
+	// a second command on the same slot, right after: where does its first send go?
+	argv2 := []string{"GET", "{" + fc.TagFor(slot) + "}second"}
+	ctx2, cancel2 := context.WithTimeout(context.Background(), 20*time.Second)
+	cli.Do(ctx2, cli.B().Get().Key(argv2[1]).Build())
+	cancel2()
+	if len(l.cl.Topos()) != ntopo {
+		return res, true
+	}
+	var arr2 []fc.Arrival
+	for _, a := range l.cl.Arrivals() {
+		if strings.Join(a.Argv, " ") == strings.Join(argv2, " ") {
+			arr2 = append(arr2, a)
+		}
+	}
 	var arr []fc.Arrival
 	for _, a := range l.cl.Arrivals() {
 		if strings.Join(a.Argv, " ") == strings.Join(argv, " ") {
@@ -630,7 +662,7 @@ func runDoOnce(c Case, try int) (res obs.Result, raced bool) {
 		ro.OptAddr(w0), ro.Addrs(known), obs.List(env), obs.List(sends), final.Coq(), ro.OptAddr(wAfter))
 	res.Sig = fmt.Sprint("do", version, nprim, write, stepsDesc(steps), migr, maxRedir, disableRetry, delays, given[slot] == w0)
 	res.Nontrivial = len(arr) > 1
-	res.Obs = map[string]any{"sends": obsSends, "final": final.String(), "steps": stepsDesc(steps), "migr": migr, "max": maxRedir, "retry": !disableRetry, "delays": delays, "delaycalls": dlog.Calls(), "w0": w0, "wafter": wAfter}
+	res.Obs = map[string]any{"sends": obsSends, "final": final.String(), "steps": stepsDesc(steps), "migr": migr, "max": maxRedir, "retry": !disableRetry, "delays": delays, "delaycalls": dlog.Calls(), "w0": w0, "wafter": wAfter, "second": secondDesc(arr2)}
 	res.Site = "cluster.go:do"
 	// ---- direct oracle ----
 	fail := func(class, f string, a ...any) {
@@ -672,6 +704,34 @@ func runDoOnce(c Case, try int) (res obs.Result, raced bool) {
 		last := ticks[len(ticks)-1]
 		if last.Kind != final.Kind || last.Val != final.Val || last.Addr != final.Addr {
 			fail("final", "call returned %s, the last reply on the wire was %s", final, last)
+		}
+		// history on the slot: ASK is a one-shot redirect. The next command's first send goes again to the
+		// slot's primary per the last topology the client learnt, or to a node a MOVED of the first call named
+		// (a MOVED may update the table); never to a node that was only named by an ASK.
+		if len(arr2) > 0 {
+			okDest := map[string]bool{given[slot]: true}
+			askOnly := map[string]bool{}
+			for i := range ticks {
+				if ticks[i].Kind == "moved" {
+					okDest[ticks[i].Addr] = true
+				}
+			}
+			for i := range ticks {
+				if ticks[i].Kind == "ask" && !okDest[ticks[i].Addr] {
+					askOnly[ticks[i].Addr] = true
+				}
+			}
+			if d := arr2[0].Node; !okDest[d] {
+				why := "which neither the learnt topology nor a MOVED reply names for the slot"
+				if askOnly[d] {
+					why = "which was only named by an ASK reply (a one-shot redirect must not rebind the slot)"
+				}
+				fail("ask-rebinds-slot", "after the first command (replies %v) the next command on slot %d was first sent to %s, %s; the learnt topology maps the slot to %s",
+					obsSends, slot, d, why, given[slot])
+			}
+			if arr2[0].Asking {
+				fail("ask-rebinds-slot", "the next command on slot %d carried ASKING on its first send", slot)
+			}
 		}
 	}
 	if *propFlag == "C28" {
@@ -720,6 +780,18 @@ func retryOracle(res *obs.Result, site string, retryable, retryOn bool, cons []r
 			res.Oracle, res.Site, res.Class = fmt.Sprintf("re-send after reply %d (%s): %s", i, ticks[i], why), site, "retry-policy"
 		}
 	}
+}
+
+func secondDesc(arr []fc.Arrival) []string {
+	out := make([]string, len(arr))
+	for i, a := range arr {
+		out[i] = a.Node
+		if a.Asking {
+			out[i] += "+asking"
+		}
+		out[i] += "=" + replyOfArrival(a).String()
+	}
+	return out
 }
 
 func indexOf(xs []string, x string) int {
